@@ -159,6 +159,28 @@ def classOfObs (es : List Entry) (obs : Tree) : String :=
      identOf tp = identOf e.path ∧ (identOf tp).isSome ∧ decide (e.path < tp))
   if early then "F06a" else "unlisted"
 
+def parseReadback (s : String) : Option Readback :=
+  match s.splitOn "," with
+  | [p, sz, c, n] => some { path := parts (ux p), statSize := parseNat sz, content := c.toList, readLen := parseNat n }
+  | _ => none
+
+def rbErrS : RbErr → String
+  | .missing p => "readback-missing:" ++ pathS p
+  | .size p => "readback-size:" ++ pathS p
+  | .content p => "readback-content:" ++ pathS p
+  | .statVsRead p => "readback-stat-vs-read:" ++ pathS p
+
+/-- `tar.readback`: every regular entry of Go's layer against what Go's FS interface read back -/
+def readbackVerdict (goEntries rb : String) : String :=
+  match parseEntries goEntries with
+  | none => "pass"     -- an unreadable layer is reported by tar.layer / tar.check
+  | some es =>
+    -- records of failed calls (`path,!stat:…`) do not parse: the entry is then reported as missing
+    let rbs := (if rb.isEmpty then [] else rb.splitOn ";").filterMap parseReadback
+    match readbackCheck es rbs with
+    | none => "pass"
+    | some e => "fail:" ++ rbErrS e
+
 def handle (args : List String) : Option String :=
   match args with
   | "tar.layer" :: b :: goEntries :: toks =>
@@ -171,6 +193,8 @@ def handle (args : List String) : Option String :=
       let v := verdict es o (usersOfText (ux passwd)) (groupsOfText (ux group))
       some ("-\t" ++ v ++ "\t" ++ (if v = "pass" then "-" else classOfObs es o))
     | _, _ => some "-\tfail:unreadable\tunlisted"
+  | ["tar.readback", goEntries, rb] => some ("-\t" ++ readbackVerdict goEntries rb ++ "\tunlisted")
+  | ["tar.readback", goEntries] => some ("-\t" ++ readbackVerdict goEntries "" ++ "\tunlisted")
   | "tar.digest" :: _ => some "-\t-\tunlisted"
   | _ => none
 
